@@ -156,6 +156,10 @@ func runBehaviour(c *vlib.Ctx, p Params, cfgForPayload any, beh *Behaviour, o Ru
 		r, infra := sim.RunStep(i, step)
 		if infra != nil {
 			c.Infra("behaviour %s: %v", beh.Hash, infra)
+			if os.Getenv("VERIF_DEBUG") != "" {
+				js, _ := json.Marshal(beh.Steps[:i+1])
+				os.WriteFile("/verif/.work/debug-"+beh.Hash+".json", js, 0o644)
+			}
 			return
 		}
 		local.Steps++
